@@ -234,7 +234,7 @@ Definition u_c19 (k : Z) (a : sx) : sx :=
           match as_bool p, as_bool o, election_of_sx e with
           | Some p', Some o', Some el =>
               match dump_lines p' el with
-              | DumpRefuse => L [A 3]
+              | DumpRefuse => L [A 5]
               | DumpOk ls =>
                   ok (L [L (map sx_of_line ls); sx_of_lres (load_lines p' o' ls);
                          match expected el with Some x => sx_of_loaded x | None => L [] end;
